@@ -239,6 +239,15 @@ fn main() {
             }
         }
     }
+    // 5. entries scaled past the small alphabets
+    let mut scaled_cases = 0u64;
+    for cfg in scaled_configs() {
+        let p = cfg.build();
+        for (_name, entry) in scaled_entries(&cfg, tier) {
+            check(&mut st, &cfg, &p, &entry);
+            scaled_cases += 1;
+        }
+    }
     states.push(st);
 
     let mut shapes = BTreeSet::new();
@@ -260,6 +269,7 @@ fn main() {
     rep.set("multi_record_outputs", multi);
     rep.set("unicode_scalar_cases", uni_cases);
     rep.set("config_string_cases", cfg_cases);
+    rep.set("scaled_entry_cases", scaled_cases);
     rep.set("cases_after_a_huge_entry_on_one_formatter", after_huge);
     rep.set("layers", layer_sizes);
     rep.set("configurations", configs(tier).len() as u64);
